@@ -4,7 +4,8 @@
    ALL lists of operations with arbitrary (also invalid) arguments. *)
 From Coq Require Import NArith List Bool Lia.
 From V Require Import Model.Registry Model.RegistryAbs Proofs.RegistryProofs Proofs.RegistryProofsX1 Proofs.RegistryProofsX2
-  Proofs.RegistryProofsX3 Proofs.RegistryProofsX4 Proofs.RegistryProofsX5.
+  Proofs.RegistryProofsX3 Proofs.RegistryProofsX4 Proofs.RegistryProofsX5 Proofs.RegistryProofsX6 Proofs.RegistryProofsX7
+  Model.RegistryX Proofs.RegistryXProofs1 Proofs.RegistryXProofs2 Proofs.RegistryXProofs3.
 Import ListNotations.
 Open Scope N_scope.
 
@@ -178,6 +179,163 @@ Theorem associate_conflict_iff : forall h c refs,
 Proof. exact associate_conflict_iff_batch_p. Qed.
 Print Assumptions associate_conflict_iff.
 
+(* BATCH form for _importDatasets, declaratively (any reachable state -- forged memberships included --, any batch, valid
+   arguments): the import succeeds iff the batch names pairwise different dataset ids under pairwise different (type, data ID)
+   keys and, for every ref: an existing dataset with that id has the ref's type and lives in this run; every membership of that
+   id carries the ref's type and data ID; the key (run, type, data ID) is free or held by this very dataset (import_good).
+   Otherwise it is refused with Conflict (and changes nothing). *)
+Theorem import_batch_ok_iff : forall h c refs,
+  coll_type (run h) c = Some RUN -> forallb (fun f => valid_d (f_data f)) refs = true ->
+  forallb (fun f => has_type (run h) (f_type f)) refs = true -> refs <> [] ->
+  (snd (step (run h) (Import c refs)) = Ok <-> import_good (run h) c refs) /\
+  (snd (step (run h) (Import c refs)) = Ok \/ snd (step (run h) (Import c refs)) = Err Conflict).
+Proof. exact import_batch_ok_iff_p. Qed.
+Print Assumptions import_batch_ok_iff.
+
+Theorem import_conflict_iff : forall h c refs,
+  coll_type (run h) c = Some RUN -> forallb (fun f => valid_d (f_data f)) refs = true ->
+  forallb (fun f => has_type (run h) (f_type f)) refs = true -> refs <> [] ->
+  (snd (step (run h) (Import c refs)) = Err Conflict <-> ~ import_good (run h) c refs).
+Proof. exact import_conflict_iff_batch_p. Qed.
+Print Assumptions import_conflict_iff.
+
+(* ---- abs_commutes for histories with FORGED refs, with the exact guard.  import_guard s c refs: every ref of the batch is
+   honest in s or the abstract map refuses it anyway (a_bad).  guarded h: the guard holds at every Import of h; associates
+   may be handed any ref (forged type / data ID included).  Honest histories are guarded. *)
+Theorem abs_commutes_guarded : forall h, guarded h = true ->
+  aeq (arun h) (abs (run h)) /\ aouts ainit h = outs init h.
+Proof. exact abs_commutes_guarded_p. Qed.
+Print Assumptions abs_commutes_guarded.
+
+Theorem abs_commutes_import_guard : forall h c refs, import_guard (run h) c refs = true ->
+  snd (astep (abs (run h)) (Import c refs)) = snd (step (run h) (Import c refs)) /\
+  aeq (fst (astep (abs (run h)) (Import c refs))) (abs (exec (run h) (Import c refs))).
+Proof. exact abs_commutes_import_guard_p. Qed.
+Print Assumptions abs_commutes_import_guard.
+
+Theorem honest_is_guarded : forall h, honest h = true -> guarded h = true.
+Proof. exact honest_guarded. Qed.
+Print Assumptions honest_is_guarded.
+
+(* the guard is needed: a forged TAGGED membership (dataset 100 of data ID 0 associated as data ID 1) makes the re-import of
+   the dataset's true ref fail in the registry (second validation query) where the map accepts it *)
+Definition ex_forged : list op :=
+  [RegisterRun 0; RegisterTagged 1; RegisterType 0; Insert 0 0 [(0, 100)]; Associate 1 [Ref 100 0 1]; Import 0 [Ref 100 0 0]].
+Theorem abs_commutes_unguarded_refuted : exists h, guarded h = false /\ aouts ainit h <> outs init h.
+Proof. exists ex_forged. split; [vm_compute; reflexivity|]. vm_compute. intros H. discriminate H. Qed.
+Print Assumptions abs_commutes_unguarded_refuted.
+
+(* ==== SECOND LAYER (Model/RegistryX.v): the registry with CHAINED and CALIBRATION collections, setCollectionChain,
+   certify and removeDatasetType.  xstate contains a first-layer state (`base`); `Base o` is a first-layer operation;
+   xrun h = the state after ANY history of first- and second-layer operations with arbitrary arguments. ==== *)
+
+(* the first layer's guarantees hold in the presence of chains, calibration collections and type removal *)
+Theorem x_tags_unique : forall h, NoDup (map ukey (tags (base (xrun h)))) /\ NoDup (map pkey (tags (base (xrun h)))).
+Proof. intros h. exact (proj1 (x_binv_run h)). Qed.
+Print Assumptions x_tags_unique.
+
+Theorem x_one_dataset_per_key : forall h c t d i j,
+  In (Row c t d i) (tags (base (xrun h))) -> In (Row c t d j) (tags (base (xrun h))) -> i = j.
+Proof. intros h c t d i j. exact (uniq_key (base (xrun h)) c t d i j (proj1 (x_binv_run h))). Qed.
+Print Assumptions x_one_dataset_per_key.
+
+Theorem x_tags_refer_to_live : forall h r, In r (tags (base (xrun h))) ->
+  alive (base (xrun h)) (r_id r) = true /\ coll_type (base (xrun h)) (r_coll r) <> None.
+Proof. intros h. exact (proj1 (proj2 (proj1 (proj2 (x_binv_run h))))). Qed.
+Print Assumptions x_tags_refer_to_live.
+
+Theorem x_summary_over_approx : forall h r, In r (tags (base (xrun h))) ->
+  mem2 (r_coll r, r_type r) (summ_t (base (xrun h))) = true /\ mem2 (r_coll r, gov_of (r_data r)) (summ_g (base (xrun h))) = true.
+Proof. intros h. exact (proj2 (proj2 (x_binv_run h))). Qed.
+Print Assumptions x_summary_over_approx.
+
+(* every refused operation (documented error of either layer) returns the same state *)
+Theorem x_refused_changes_nothing : forall s o s' r, xstep s o = (s', r) -> refusal r = true -> s' = s.
+Proof. exact x_refused_changes_nothing_p. Qed.
+Print Assumptions x_refused_changes_nothing.
+
+(* TAGGED contents change only at first-layer associate / disassociate / remove steps: not at certify, setCollectionChain,
+   removeDatasetType, registrations *)
+Theorem x_tagged_changes_only_by : forall s o c t, coll_type (base s) c = Some TAGGED -> xtouches_tagged o = false ->
+  contents (base (xexec s o)) c t = contents (base s) c t.
+Proof. exact x_tagged_frame_p. Qed.
+Print Assumptions x_tagged_changes_only_by.
+
+(* certify membership is not TAGGED (or RUN) membership: certify never touches the first layer -- no tag row, no dataset *)
+Theorem certify_is_not_tag_membership : forall s c refs b len, base (xexec s (Certify c refs b len)) = base s.
+Proof. exact certify_base_unchanged_p. Qed.
+Print Assumptions certify_is_not_tag_membership.
+
+(* removal cascades: after any history every calibration row refers to a live dataset and a CALIBRATION collection *)
+Theorem x_calibs_refer_to_live : forall h q, In q (calibs (xrun h)) ->
+  alive (base (xrun h)) (q_id q) = true /\ xkind_of (xrun h) (q_coll q) = Some CALIBRATION.
+Proof. intros h q Hq. destruct (x_calfk_run h q Hq) as [A K]. split; [apply alive_iff_in; exact A|exact K]. Qed.
+Print Assumptions x_calibs_refer_to_live.
+
+(* the calibration analogue of one-dataset-per-key: two certified memberships of one (collection, type, data ID) never have
+   overlapping validity ranges -- at any instant at most one dataset *)
+Theorem x_calib_ranges_disjoint : forall h l1 q l2 q', calibs (xrun h) = l1 ++ q :: l2 -> In q' l2 ->
+  q_coll q = q_coll q' -> q_type q = q_type q' -> q_data q = q_data q' -> q_e q <= q_b q' \/ q_e q' <= q_b q.
+Proof.
+  intros h l1 q l2 q' E Hq' K1 K2 K3. pose proof (x_caldisj_run h) as D. rewrite E in D.
+  exact (caldisj_split l1 q l2 D q' Hq' (conj K1 (conj K2 K3))).
+Qed.
+Print Assumptions x_calib_ranges_disjoint.
+
+(* what queryDatasets shows for a collection of any kind = the union over its flattened children; flattened children are
+   never chains; a chain holds nothing itself; a non-chained collection shows what it holds *)
+Theorem chain_view_is_union : forall s c t p,
+  In p (view s c t) <-> exists c', In c' (flatten s (fuel_of s) [c]) /\ In p (holds s c' t).
+Proof. exact view_union_p. Qed.
+Print Assumptions chain_view_is_union.
+
+Theorem chain_members_not_chained : forall s n cs c', In c' (flatten s n cs) -> xkind_of s c' <> Some CHAINED.
+Proof. exact flatten_not_chained. Qed.
+Print Assumptions chain_members_not_chained.
+
+Theorem view_of_plain_collection : forall s c t, xkind_of s c <> Some CHAINED -> view s c t = holds s c t.
+Proof. exact view_plain_p. Qed.
+Print Assumptions view_of_plain_collection.
+
+(* find-first over a chain returns the dataset of the FIRST flattened child that holds the key, and nothing iff no child does *)
+Theorem find_first_is_first_holder : forall s c t d i, view_first s c t d = Some i ->
+  exists l1 c' l2, flatten s (fuel_of s) [c] = l1 ++ c' :: l2 /\ In (d, i) (holds s c' t) /\
+    forall c'', In c'' l1 -> forall j, ~ In (d, j) (holds s c'' t).
+Proof. exact view_first_spec. Qed.
+Print Assumptions find_first_is_first_holder.
+
+Theorem find_first_none_iff_absent : forall s c t d, view_first s c t d = None -> forall j, ~ In (d, j) (view s c t).
+Proof. exact view_first_none. Qed.
+Print Assumptions find_first_none_iff_absent.
+
+(* removeDatasetType of a registered type: refused with OrphanedRecordError exactly while a dataset / tag / calibration
+   row of the type exists; otherwise the type is gone and no dataset, tag row or calibration row changes *)
+Theorem remove_type_exact : forall s t, has_type (base s) t = true ->
+  (snd (xstep s (RemoveType t)) = X Orphaned <-> type_in_use s t = true) /\
+  (snd (xstep s (RemoveType t)) = B Ok <-> type_in_use s t = false) /\
+  (type_in_use s t = false -> has_type (base (xexec s (RemoveType t))) t = false /\
+     datasets (base (xexec s (RemoveType t))) = datasets (base s) /\ tags (base (xexec s (RemoveType t))) = tags (base s) /\
+     calibs (xexec s (RemoveType t)) = calibs s /\
+     forall t', t' <> t -> has_type (base (xexec s (RemoveType t))) t' = has_type (base s) t').
+Proof. exact remove_type_spec. Qed.
+Print Assumptions remove_type_exact.
+
+(* the dataset-type foreign key over ALL histories: every dataset row, tag row and calibration row carries a registered
+   dataset type -- removeDatasetType never leaves a row of a removed type behind *)
+Theorem x_types_registered : forall h,
+  (forall x, In x (datasets (base (xrun h))) -> has_type (base (xrun h)) (d_type x) = true) /\
+  (forall r, In r (tags (base (xrun h))) -> has_type (base (xrun h)) (r_type r) = true) /\
+  (forall q, In q (calibs (xrun h)) -> has_type (base (xrun h)) (q_type q) = true).
+Proof. intros h. destruct (x_typesok_run h) as [[A Bt] C]. split; [exact A|split; [exact Bt|exact C]]. Qed.
+Print Assumptions x_types_registered.
+
+(* conservativity: on histories of first-layer operations the second layer IS the first (same states, same outcomes), so
+   theorems 1-23 are theorems about it *)
+Theorem x_conservative : forall h,
+  xrun (map Base h) = lift (run h) /\ xouts_from xinit (map Base h) = map B (outs init h).
+Proof. exact lift_run. Qed.
+Print Assumptions x_conservative.
+
 (* ---- non-vacuity: a reachable, non-trivial state and the behaviours the hypotheses talk about ------------ *)
 Definition ex_h : list op :=
   [RegisterRun 0; RegisterRun 2; RegisterTagged 1; RegisterType 0; RegisterType 1;
@@ -230,3 +388,42 @@ Example ex_assoc_batch_two_new : snd (step (run (ex_h ++ [Disassociate 1 [Ref 10
 Proof. vm_compute. reflexivity. Qed.
 Example ex_assoc_batch_ok : snd (step (run (ex_h ++ [Disassociate 1 [Ref 100 0 0]])) (Associate 1 [Ref 110 0 0; Ref 101 0 1])) = Ok.
 Proof. vm_compute. reflexivity. Qed.
+
+(* second layer: a history with a calibration collection (4), a chain (3) over [calib 4; run 0; tagged 1], certified ranges *)
+Definition ex_x : list xop :=
+  map Base [RegisterRun 0; RegisterRun 2; RegisterTagged 1; RegisterType 0; RegisterType 2;
+            Insert 2 0 [(0, 100); (1, 101)]; Insert 2 2 [(0, 110)]; Insert 0 2 [(3, 111)]; Associate 1 [Ref 110 2 0]] ++
+  [RegisterChained 3; RegisterCalib 4; SetChain 3 [4; 0; 1; 0]; Certify 4 [Ref 100 2 0] 0 1; Certify 4 [Ref 110 2 0] 2 0].
+
+Example ex_x_calibs : calibs (xrun ex_x) = [CRow 4 2 0 110 2 3; CRow 4 2 0 100 0 2].
+Proof. vm_compute. reflexivity. Qed.
+Example ex_x_chain_view : view (xrun ex_x) 3 2 = [(0, 110); (0, 100); (1, 101); (0, 100); (0, 110)]
+  /\ flatten (xrun ex_x) (fuel_of (xrun ex_x)) [3] = [4; 0; 1].
+Proof. vm_compute. split; reflexivity. Qed.
+Example ex_x_find_first : view_first (xrun ex_x) 3 0 3 = None /\ view_first (xrun (ex_x ++ [SetChain 3 [1; 2]])) 3 2 0 = Some 110
+  /\ view_first (xrun (ex_x ++ [SetChain 3 [2; 1]])) 3 0 3 = Some 111.
+Proof. vm_compute. repeat split; reflexivity. Qed.
+Example ex_x_certify_overlap : xstep (xrun ex_x) (Certify 4 [Ref 110 2 0] 1 0) = (xrun ex_x, B (Err Conflict)).
+Proof. vm_compute. reflexivity. Qed.
+Example ex_x_certify_not_tagged : tags (base (xexec (xrun ex_x) (Certify 4 [Ref 101 2 1] 0 5))) = tags (base (xrun ex_x))
+  /\ length (calibs (xexec (xrun ex_x) (Certify 4 [Ref 101 2 1] 0 5))) = 3%nat.
+Proof. vm_compute. split; reflexivity. Qed.
+Example ex_x_remove_cascades : calibs (xexec (xrun ex_x) (Base (RemoveDatasets [100]))) = [CRow 4 2 0 110 2 3]
+  /\ calibs (xexec (xrun ex_x) (Base (RemoveCollection 2))) = [CRow 4 2 0 100 0 2].
+Proof. vm_compute. split; reflexivity. Qed.
+Example ex_x_child_not_removable : xstep (xrun ex_x) (Base (RemoveCollection 0)) = (xrun ex_x, X SqlErr)
+  /\ snd (xstep (xrun ex_x) (SetChain 3 [3])) = X Cycle.
+Proof. vm_compute. split; reflexivity. Qed.
+Example ex_x_remove_type : snd (xstep (xrun ex_x) (RemoveType 2)) = X Orphaned
+  /\ snd (xstep (xrun (ex_x ++ [Base (RemoveDatasets [111])])) (RemoveType 0)) = B Ok
+  /\ has_type (base (xrun (ex_x ++ [Base (RemoveDatasets [111]); RemoveType 0]))) 0 = false.
+Proof. vm_compute. repeat split; reflexivity. Qed.
+
+(* the guarded theorems are not vacuous: a history with a forged associate and a later import is guarded but not honest *)
+Example ex_guarded_forged : guarded (ex_h ++ [Associate 1 [Ref 110 0 1]; Import 0 [Ref 130 1 2]; Import 2 [Ref 110 0 1]]) = true
+  /\ honest (ex_h ++ [Associate 1 [Ref 110 0 1]; Import 0 [Ref 130 1 2]; Import 2 [Ref 110 0 1]]) = false.
+Proof. vm_compute. split; reflexivity. Qed.
+Example ex_import_good : snd (step (run ex_h) (Import 0 [Ref 100 0 0; Ref 130 1 2])) = Ok
+  /\ snd (step (run ex_h) (Import 0 [Ref 130 1 2; Ref 131 1 2])) = Err Conflict
+  /\ snd (step (run ex_h) (Import 0 [Ref 100 0 1])) = Err Conflict.
+Proof. vm_compute. repeat split; reflexivity. Qed.
